@@ -4,6 +4,23 @@ use vstd::prelude::*;
 verus! {
 //@@ INCLUDE lib/prelude.rs
 //@@ INCLUDE lib/add_lemmas.rs
+pub mod arch { pub mod add {
+use super::super::*;
+//@@ SIG integer/arch/add_with_carry.rs
+//@@ SIG integer/arch/sub_with_borrow.rs
+} }
+use arch::add::{add_with_carry, sub_with_borrow};
+//@@ SIG integer/primitive/split_dword.rs
 //@@ FN integer/add/add_one_in_place.rs
+//@@ FN integer/add/sub_one_in_place.rs
+//@@ FN integer/add/add_word_in_place.rs
+//@@ FN integer/add/sub_word_in_place.rs
+//@@ FN integer/add/add_dword_in_place.rs
+//@@ FN integer/add/sub_dword_in_place.rs
+//@@ FN integer/add/add_same_len_in_place.rs
+//@@ FN integer/add/sub_same_len_in_place.rs
+//@@ FN integer/add/sub_same_len_in_place_swap.rs
+//@@ FN integer/add/add_in_place.rs
+//@@ FN integer/add/sub_in_place.rs
 } // verus!
 fn main() {}
